@@ -57,6 +57,17 @@ CLAIMS["C03"] = dict(
     technique="static analysis: emitter shape rules, index-space taint, contradiction rule (index reuse vs index order), table agreement",
     design="DESIGN.md section 5, C03")
 
+CLAIMS["C05"] = dict(
+    text="Field-level lens laws decided symbolically for every codec pair: decoder∘encoder is the identity on every init-field "
+         "(all op/type/param/arg/value classes, extension ops through to_custom_op), encoder∘decoder is the identity on every "
+         "serial field the property lists (foreign documents); the loader keeps offset-less order edges and decodes the order "
+         "port; sugar classes override construction/display only and inherit a class-insensitive __eq__ over exactly the contents. "
+         "Derived facts (bound, signature, port kinds) are functions of the fields (C06/C07), so field identity implies theirs.",
+    note="Trusted: CPython ast, pydantic for Any payloads. Excluded from the reverse direction with reason: runtime_reqs / "
+         "extension_delta / description (not in the property's list for foreign documents). Not decided: equality of runtime values.",
+    technique="static analysis: symbolic codec composition in both directions over AST normal forms; override/flag tables for sugar classes",
+    design="DESIGN.md section 5, C05")
+
 NOT_APPLICABLE_REASON: dict[str, str] = {}
 
 
